@@ -294,56 +294,6 @@ func c13Assert(w *World, r *Result) {
 
 // ---- index expressions ------------------------------------------------------------------
 
-// reviewed index sites: function -> reason (applies to the index expressions of
-// that function that are not discharged automatically).
-// reviewedCount: how many unguarded index expressions of each reviewed function the review covered.
-var reviewedCount = map[string]int{
-	"bash/converter.mustCurrentForVar":            1,
-	"bash/converter.varAssignmentString":          1,
-	"batch/converter.ForEnd":                      1,
-	"batch/converter.addLine":                     2,
-	"batch/converter.mustCurrentEndLabel":         1,
-	"batch/converter.mustCurrentForLabel":         1,
-	"batch/converter.mustCurrentFuncInfo":         1,
-	"batch/converter.mustCurrentIfInfo":           1,
-	"lexer/Tokenize":                              5,
-	"main/main":                                   1,
-	"main/parseOptions":                           3,
-	"parser/Parser.evaluateArguments":             1,
-	"parser/Parser.evaluateCompoundAssignment":    4,
-	"parser/Parser.evaluateFunctionDefinition$2":  1,
-	"parser/Parser.evaluateVarDefinition":         1,
-	"parser/Parser.parse":                         1,
-	"parser/context.currentScope":                 1,
-	"parser/isPublic":                             1,
-	"parser/scopesToString":                       1,
-	"transpiler/transpiler.evaluateIf":            1,
-}
-
-var reviewedIndex = map[string]string{
-	"context.currentScope":                           "every caller lies below the block routine that pushes a scope before parsing statements (call-graph dominance)",
-	"Parser.evaluateVarDefinition":                   "name list comes from the do-while name reader (≥ 1 element); type/value lists were length-checked against it",
-	"Parser.evaluateCompoundAssignment":              "name list ≥ 1 (do-while reader); value list ≥ 1 (do-while reader) and checked to hold exactly one value",
-	"Parser.evaluateVarAssignment":                   "value-type list was checked to have the length of the name list that is ranged over",
-	"Parser.parse":                                   "hex digest of SHA-256 has 64 characters (> 7)",
-	"isPublic":                                       "guarded by len(name) > 0",
-	"Parser.evaluateFunctionDefinition$2":            "guarded by length > 0 / index from range over a list of checked equal length",
-	"scopesToString":                                 "destination made with the length of the ranged source",
-	"converter.varAssignmentString":                  "second index reads a value that is the non-empty input possibly extended by one character",
-	"converter.Dump":                                 "down-counting loop from len-1 to 0",
-	"converter.addLine":                              "index = len(functionsCode)-1; an entry is appended whenever the current function differs from the previous one, which holds for the first line of every function (names are unique and non-empty)",
-	"converter.AppCall":                              "in-place rewrite of the ranged argument list",
-	"converter.FuncCall":                             "in-place rewrite of the ranged argument list",
-	"Parser.evaluateArguments":                       "index = len(args)-1 after an append; bounded by the parameter count check directly above",
-	"Parser.evaluateInput$1":                         "guarded by len(expressions) > 0",
-	"Tokenize":                                       "sub-match indices follow from the capture groups of the constant regex; split of a matched comment has ≥ 1 element; source[i:] with i < len(source) by the loop condition",
-	"transpiler.evaluateVarDefinitionCallAssignment": "guarded by the explicit length comparison above",
-	"transpiler.evaluateVarAssignmentCallAssignment": "guarded by the explicit length comparison above",
-	"transpiler.evaluateIf":                          "condition list has one entry per else-if branch (filled by the loop over the same accessor)",
-	"main":                                           "extension length never exceeds the base name's length (Ext is a suffix of the path)",
-	"parseOptions":                                   "i+1 ≤ len(args)-1 by the loop condition",
-}
-
 // converter stack accessors: index the top of a stack that the bracket protocol
 // guarantees non-empty; the parser must only admit the statement inside the
 // construct that pushed (cross-layer obligation checked below).
@@ -357,6 +307,7 @@ func c13Index(w *World, r *Result) {
 		for _, fn := range w.Funcs(role) {
 			n := 0
 			und := 0
+			var sigs []string
 			var firstPos token.Pos
 			for _, b := range fn.Blocks {
 				for _, ins := range b.Instrs {
@@ -401,6 +352,7 @@ func c13Index(w *World, r *Result) {
 						continue
 					}
 					und++
+					sigs = append(sigs, indexSiteSignature(base, index, kind))
 					if firstPos == token.NoPos {
 						firstPos = pos
 					}
@@ -409,36 +361,111 @@ func c13Index(w *World, r *Result) {
 			if und == 0 {
 				continue
 			}
+			sort.Strings(sigs)
+			fp := role + ":" + strings.Join(sigs, " ")
 			name := FuncName(fn)
 			if role == "transpiler" {
 				name = "transpiler." + fn.Name()
 			}
 			key := "index:" + FuncName(fn) + ":reviewed"
 			if os.Getenv("VERIF_DEBUG") == "counts" {
-				fmt.Printf("REVIEWCOUNT\t%q: %d,\n", role+"/"+name, und)
+				fmt.Printf("REVIEWFP\t%q: %q, // %s\n", fp, reviewedSites[fp], role+"/"+name)
 			}
-			reviewedOK := func(reason string) {
-				if max, ok := reviewedCount[role+"/"+name]; !ok || und > max {
-					r.Bad(rule, key, w.Pos(firstPos), fmt.Sprintf("%d index / slice expression(s) of %s have no guard, but the review (\"%s\") covered %d: a new unguarded index was added", und, name, reason, max))
-					return
-				}
+			// the review is keyed by WHAT is indexed (field, accessor or call the list comes from,
+			// shape of the index), not by the name of the function: a renamed or moved function
+			// keeps its justification, a new unguarded index does not inherit one
+			if reason, ok := reviewedSites[fp]; ok {
 				r.Triv(rule, key, w.Pos(firstPos), fmt.Sprintf("%d index expression(s) justified by review: %s", und, reason))
-			}
-			if reason, ok := reviewedIndex[name]; ok {
-				reviewedOK(reason)
 				continue
 			}
 			if role == "bash" || role == "batch" {
-				if reason, ok := reviewedIndex[FuncName(fn)]; ok {
-					reviewedOK(reason)
-					continue
-				}
 				c13StackAccessor(w, r, role, fn, und, firstPos)
 				continue
 			}
 			r.Bad(rule, "index:"+FuncName(fn)+":unguarded", w.Pos(firstPos), fmt.Sprintf("%d index/slice expression(s) are neither bounded by a range loop, nor by a dominating length test, nor covered by a reviewed argument: an input can make transpilation panic instead of returning an error", und))
 		}
 	}
+}
+
+// indexSiteSignature: what is indexed and how, without names of the enclosing function or of
+// local variables: "<where the list comes from>[<shape of the index>]".
+func indexSiteSignature(base, index ssa.Value, kind string) string {
+	var desc func(v ssa.Value, d int) string
+	desc = func(v ssa.Value, d int) string {
+		if d > 4 || v == nil {
+			return "?"
+		}
+		switch x := v.(type) {
+		case *ssa.UnOp:
+			if fa, ok := x.X.(*ssa.FieldAddr); ok {
+				t := fa.X.Type()
+				if p, ok := t.Underlying().(*types.Pointer); ok {
+					t = p.Elem()
+				}
+				return namedName(t) + "." + structFieldName(fa.X.Type(), fa.Field)
+			}
+			if _, ok := x.X.(*ssa.Global); ok {
+				return "global"
+			}
+			return "load(" + desc(x.X, d+1) + ")"
+		case *ssa.Field:
+			return namedName(x.X.Type()) + "." + structFieldName(x.X.Type(), x.Field)
+		case *ssa.Parameter:
+			return "param:" + types.TypeString(x.Type(), func(*types.Package) string { return "" })
+		case *ssa.Call:
+			if bi, ok := x.Call.Value.(*ssa.Builtin); ok {
+				return "call:" + bi.Name()
+			}
+			if callee := x.Call.StaticCallee(); callee != nil {
+				if callee.Pkg != nil && callee.Signature.Recv() == nil {
+					return "call:" + callee.Pkg.Pkg.Name() + "." + callee.Name()
+				}
+				return "call:" + callee.Name()
+			}
+			if x.Call.IsInvoke() {
+				return "call:" + x.Call.Method.Name()
+			}
+			return "call:dyn"
+		case *ssa.Extract:
+			return desc(x.Tuple, d+1)
+		case *ssa.Slice:
+			return "slice(" + desc(x.X, d+1) + ")"
+		case *ssa.Convert:
+			return "conv(" + desc(x.X, d+1) + ")"
+		case *ssa.Phi:
+			return "merge"
+		case *ssa.Alloc:
+			return "local"
+		case *ssa.FreeVar:
+			return "captured"
+		}
+		return fmt.Sprintf("%T", v)
+	}
+	idx := "var"
+	switch x := index.(type) {
+	case *ssa.Const:
+		if x.Value != nil {
+			idx = "#" + x.Value.ExactString()
+		}
+	case *ssa.BinOp:
+		switch {
+		case isLenMinusOne(index, base):
+			idx = "len-1"
+		case x.Op == token.SUB:
+			idx = "a-b"
+		case x.Op == token.ADD:
+			idx = "a+b"
+		default:
+			idx = "expr"
+		}
+	case *ssa.Parameter:
+		idx = "param"
+	case *ssa.Phi:
+		idx = "merge"
+	case *ssa.Call:
+		idx = "call"
+	}
+	return kind + ":" + desc(base, 0) + "[" + idx + "]"
 }
 
 // indexDischarged: automatic discharge patterns.
@@ -2646,4 +2673,28 @@ func lexFirstIterationRuns(w *World, lf *LexFacts, fn *ssa.Function, hdr *ssa.Ba
 		}
 	}
 	return false
+}
+
+// reviewedSites is filled from reviewedSitesTable (generated once from the reviewed tree).
+var reviewedSites = map[string]string{}
+
+// reviewedSitesTable: generated once from the reviewed tree (VERIF_DEBUG=counts), then frozen.
+func init() {
+	for k, v := range map[string]string{
+		"lexer:index:call:FindStringSubmatch[#0] index:call:FindStringSubmatch[#0] index:call:FindStringSubmatch[#1] index:call:FindStringSubmatch[#1] slice:call:strings.ReplaceAll[merge]": "sub-match indices follow from the capture groups of the constant regex; split of a matched comment has ≥ 1 element; source[i:] with i < len(source) by the loop condition", // on the reviewed tree: lexer/Tokenize
+		"parser:index:context.scopeStack[len-1]": "every caller lies below the block routine that pushes a scope before parsing statements (call-graph dominance)", // on the reviewed tree: parser/context.currentScope
+		"parser:slice:call:fmt.Sprintf[#8]":      "hex digest of SHA-256 has 64 characters (> 7)",                                                                  // on the reviewed tree: parser/Parser.parse
+		"parser:index:conv(param:string)[#0]":    "guarded by len(name) > 0",                                                                                       // on the reviewed tree: parser/isPublic
+		"parser:index:call:evaluateVarNames[#0]": "name list comes from the do-while name reader (≥ 1 element); type/value lists were length-checked against it",   // on the reviewed tree: parser/Parser.evaluateVarDefinition
+		"parser:index:call:Value[#0] index:call:evaluateVarNames[#0] index:evaluatedValues.values[#0] index:merge[#0]": "name list ≥ 1 (do-while reader); value list ≥ 1 (do-while reader) and checked to hold exactly one value", // on the reviewed tree: parser/Parser.evaluateCompoundAssignment
+		"parser:index:load(captured)[a+b]":   "guarded by length > 0 / index from range over a list of checked equal length",                // on the reviewed tree: parser/Parser.evaluateFunctionDefinition$2
+		"parser:index:param:[]Variable[a-b]": "index = len(args)-1 after an append; bounded by the parameter count check directly above",    // on the reviewed tree: parser/Parser.evaluateArguments
+		"transpiler:index:merge[a+b]":        "condition list has one entry per else-if branch (filled by the loop over the same accessor)", // on the reviewed tree: transpiler/transpiler.evaluateIf
+		"bash:index:merge[#0]":               "second index reads a value that is the non-empty input possibly extended by one character",   // on the reviewed tree: bash/converter.varAssignmentString
+		"batch:index:converter.functionsCode[len-1] index:converter.functionsCode[len-1]": "index = len(functionsCode)-1; an entry is appended whenever the current function differs from the previous one, which holds for the first line of every function (names are unique and non-empty)", // on the reviewed tree: batch/converter.addLine
+		"main:index:global[a+b] index:global[len-1] index:global[merge]":                  "i+1 ≤ len(args)-1 by the loop condition",                                                                                                                                                           // on the reviewed tree: main/parseOptions
+		"main:slice:call:filepath.Base[a-b]":                                              "extension length never exceeds the base name's length (Ext is a suffix of the path)",                                                                                                               // on the reviewed tree: main/main
+	} {
+		reviewedSites[k] = v
+	}
 }
